@@ -2037,6 +2037,14 @@ def rule_lossy_marker(col, facts):
             for sp in sites:
                 n += 1
                 ok = any(strip_casts(e)[:2] == ("arg", la) and p is False for _d, e, p in path_conditions(f, i))
+                if not ok:
+                    # `let is_accurate = shift > 65 || lossy || error_is_accurate(..); if !is_accurate { marker }`:
+                    # read the boolean along every path to the site
+                    from rules.core import every_path_has
+                    try:
+                        ok = every_path_has(f, i, lambda e, p: strip_casts(e)[:2] == ("arg", la) and p is False)
+                    except AnchorMissing:
+                        ok = False
                 col.check(R, "%s:marker#%d" % (last_seg(name), n), ok, "the undecided marker is produced on a path where `lossy` was not tested false: lossy parsing would return a float built from a biased exponent", f.loc(sp))
     col.floor(R, "marker producers", n, 1)
     for name in ("parse::parse_complete", "parse::parse_partial"):
